@@ -73,6 +73,13 @@ int32_t psEccX963ImportKey(psPool_t *pool,
     {
         return PS_ARG_FAIL;
     }
+    /* An uncompressed point of a known curve is 04 || X || Y with both
+       coordinates exactly as long as the field */
+    if (curve != NULL && inlen != (2 * curve->size) + 1)
+    {
+        psTraceCrypto("ECC public key length does not fit the curve\n");
+        return PS_ARG_FAIL;
+    }
 
     /* The key passed in may be a private key that is already initialized
        and the 'k' parameter set. */
